@@ -267,7 +267,8 @@ def task_class(args):
 
 
 def payload_classes():
-    return [c for c in shapes.all_entity_classes() if hasattr(c, "__header_schema__") and hasattr(c, "__api_key__")]
+    return [c for c in shapes.all_entity_classes() if hasattr(c, "__header_schema__") and hasattr(c, "__api_key__")
+            and c.__type__.name in ("request", "response")]
 
 
 def check(tier):
